@@ -49,4 +49,3 @@ func TestVerifC11Fresh(t *testing.T) {
 		t.Skip()
 	}
 }
-
